@@ -19,9 +19,43 @@ fn fnv(s: &str) -> String {
     format!("{h:016x}")
 }
 
+/// A long-lived big-stack thread that computes digests one after the other (C11: "another thread" - and a
+/// thread that has seen other events, among them failing ones, before).
+fn veteran_digest(run: u32, banks: &[BankB]) -> (String, String, usize) {
+    use std::sync::mpsc::{channel, Receiver, Sender};
+    use std::sync::{Mutex, OnceLock};
+    type Job = (u32, Vec<(Vec<u8>, Vec<u8>)>);
+    static CH: OnceLock<Mutex<(Sender<Job>, Receiver<Map<String, Value>>)>> = OnceLock::new();
+    let ch = CH.get_or_init(|| {
+        let (tx, rx) = channel::<Job>();
+        let (rtx, rrx) = channel::<Map<String, Value>>();
+        std::thread::Builder::new()
+            .stack_size(256 << 20)
+            .spawn(move || {
+                for (run, owned) in rx {
+                    let r = std::panic::catch_unwind(|| project_on_this_thread(run, owned, Detail::Digest))
+                        .unwrap_or_else(|_| obj(vec![("verdict", json!("panic"))]));
+                    if rtx.send(r).is_err() {
+                        break;
+                    }
+                }
+            })
+            .unwrap();
+        Mutex::new((tx, rrx))
+    });
+    let g = ch.lock().unwrap();
+    let owned: Vec<(Vec<u8>, Vec<u8>)> = banks.iter().map(|b| (b.name.clone(), b.data.clone())).collect();
+    g.0.send((run, owned)).unwrap();
+    let m = g.1.recv().unwrap_or_else(|_| obj(vec![("verdict", json!("abort"))]));
+    digest_of(m)
+}
+
 /// verdict class + digest of (timestamp, avalanche list in order, vertex), all f64 as bit patterns
 pub fn digest(run: u32, banks: &[BankB]) -> (String, String, usize) {
-    let m = build_and_project(run, banks, Detail::Digest);
+    digest_of(build_and_project(run, banks, Detail::Digest))
+}
+
+fn digest_of(m: Map<String, Value>) -> (String, String, usize) {
     let verdict = m["verdict"].as_str().unwrap().to_string();
     if verdict != "ok" {
         return (verdict, String::new(), 0);
@@ -188,6 +222,20 @@ fn bag_case<R: Rng>(runner: &mut Runner, rng: &mut R, kind: &str, case: String, 
         }
         let (v, d, _) = digest(run, &banks);
         runs.push(json!(["inproc-again", 0, v, d]));
+        // (a2) on the long-lived thread: first a variant of this bag that fails late (its TRG bank removed and
+        //      a junk pad bank appended), then the bag itself, twice
+        {
+            let mut failing: Vec<BankB> = banks.iter().filter(|b| b.name != b"ATAT").cloned().collect();
+            failing.push(BankB::new("PC00", vec![1, 2, 3]));
+            let _ = veteran_digest(run, &failing);
+            for _ in 0..2 {
+                let (v, d, _) = veteran_digest(run, &banks);
+                if v != "ok" && v != "err" {
+                    worst = v.clone();
+                }
+                runs.push(json!(["veteran", 0, v, d]));
+            }
+        }
         // (b) four threads at once
         let hs: Vec<_> = (0..4)
             .map(|_| {
